@@ -32,6 +32,9 @@ var streqAxioms = []string{
 	"(forall ((a Str)) (! (streq a a) :pattern ((streq a a))))",
 	"(forall ((a Str) (b Str)) (! (=> (streq a b) (and (streq b a) (= (slen a) (slen b)))) :pattern ((streq a b))))",
 	"(forall ((a Str) (b Str) (c Str)) (! (=> (and (streq a b) (streq b c)) (streq a c)) :pattern ((streq a b) (streq b c))))",
+	// extensionality, with a witness function for the first differing byte
+	"(forall ((a Str) (b Str)) (! (or (streq a b) (not (= (slen a) (slen b))) (and (<= 0 (strdiff a b)) (< (strdiff a b) (slen a)) (not (= (select (sbase a) (+ (soff a) (strdiff a b))) (select (sbase b) (+ (soff b) (strdiff a b))))))) :pattern ((streq a b))))",
+	"(forall ((a Str) (b Str) (k Int)) (! (=> (and (streq a b) (<= 0 k) (< k (slen a))) (= (select (sbase a) (+ (soff a) k)) (select (sbase b) (+ (soff b) k)))) :pattern ((streq a b) (select (sbase a) (+ (soff a) k)))))",
 }
 
 var strltAxioms = []string{
@@ -97,7 +100,7 @@ func (x *Exec) buildQuery(vc *VC, extra []string, getModel []string) string {
 		work = next
 	}
 	if usesStreq {
-		declOut = append(declOut, "(declare-fun streq (Str Str) Bool)")
+		declOut = append(declOut, "(declare-fun streq (Str Str) Bool)", "(declare-fun strdiff (Str Str) Int)")
 		axOut = append(axOut, streqAxioms...)
 	}
 	if usesStrlt {
